@@ -290,7 +290,7 @@ def r10d(ctx):
                 if mc and mc[1] == 'update_softmax_options' and show(t) not in seen:
                     seen.add(show(t))
                     n += 1
-                    ok, why = forwarding_ok(ctx, fn, t)
+                    ok, why = forwarding_ok(ctx, fn, t, p)
                     ctx.ob('R10d', f'{fn.cls.name}.update_softmax_options -> {short(mc[0], 40)}',
                            ok, 'options forwarded slot by slot' if ok else
                            f'{why}: the quantizer is configured with another option than the one '
